@@ -204,6 +204,16 @@ var props = map[string]propDef{
 		Thorough:       budget{Runs: 8000, Chunk: 40, Wall: 40 * time.Minute, PerChunkGrace: 5 * time.Minute},
 		MinimiseBudget: 90 * time.Second,
 	},
+	"C33": {
+		Binary: "dsim-sql", Harness: "C33", Level: "exploration",
+		Rule: "each run = a fresh on-disk repository behind the production SQL engine, two branches edited by their own sessions: 30-90 seeded steps (up to 200 thorough) of row DML, ADD/DROP COLUMN, RENAME TABLE, DROP/CREATE TABLE, dolt_commit (each records the table's name, schema and rows in the reference model), dolt_tag and dolt_branch at randomly chosen old commits, uncommitted changes in between, dolt_gc, clean restarts. Reads pick a recorded commit and address it by hash, by a tag or by a branch created at it, through SELECT * ... AS OF, through the revision database name `db/ref`, or through dolt_history_<table> filtered to the commit hash; the result must equal the recorded rows (under that commit's schema), and a table that was absent in the commit must be refused. One evaluation = one historical read compared.",
+		Assumptions: []string{"history-table reads are limited to commits of the reader's own branch in which the table had its present name (what dolt_history_<t> means across renames is not specified by the property)", "AS OF timestamps are not generated"},
+		Real:        sqlReal, Stub: sqlStub, Persistence: "not used (clean restarts only)",
+		ExpectProbes:   []string{"commits", "historical_read_ok:as-of", "historical_read_ok:revision-db", "historical_read_ok:history-table", "absent_table_refused", "gc", "clean-restart", "reads_after_gc", "reads_of_commits_with_other_schema_or_name", "rename-table", "add-column", "drop-table"},
+		Quick:          budget{Runs: 160, Chunk: 10, Wall: 150 * time.Second, PerChunkGrace: 120 * time.Second},
+		Thorough:       budget{Runs: 6000, Chunk: 40, Wall: 40 * time.Minute, PerChunkGrace: 5 * time.Minute},
+		MinimiseBudget: 90 * time.Second,
+	},
 	"C27": {
 		Binary: "dsim-sql", Harness: "C27", Level: "exploration",
 		Rule: "each run = 2-3 sessions (autocommit drawn per session) on main plus one session on branch b1 of a fresh on-disk repository behind the production SQL engine; one keyless table kl(a, b) with a secondary index; 20-70 seeded statements: multi-row INSERT of duplicate rows, DELETE ... LIMIT n, UPDATE ... LIMIT n, COMMIT / ROLLBACK, edits on b1, CALL dolt_merge('b1'), clean restarts. The reference model is a multiset per session (snapshot + own writes) and per branch; transaction commits and branch merges combine multiplicity changes row by row (both sides changed the multiplicity of one row differently => must be reported as a conflict). Every GROUP BY over all columns, COUNT(*) and index lookup must equal the multiset. One evaluation = one checked read.",
